@@ -20,6 +20,8 @@ package engine
 //@ func cacheSubworkflows
 //@   requires wf != nil && converter != nil && ancestors != nil && cachesOK(flowCaches)
 //@   loop 1 invariant cachesOK(flowCaches)
+//@   loop 1 invariant forall k string :: indom(ancestors, k) == old(indom(ancestors, k))
+//@   ensures [only-files-being-expanded-count-as-ancestors] forall k string :: indom(ancestors, k) == old(indom(ancestors, k))
 //@   ensures [cache-or-error] result1 == nil ==> result == nil || wfcache(result)
 //@   ensures [error-has-no-cache] result1 != nil ==> result == nil
 //
